@@ -4,6 +4,7 @@ import (
 	"fmt"
 	"math"
 	"sort"
+	"strings"
 	"unsafe"
 
 	otter "github.com/maypok86/otter/v2"
@@ -128,6 +129,11 @@ type concRun struct {
 }
 
 func (cr *concRun) fail(props []string, rule string, key int, format string, a ...any) {
+	// results and bookkeeping of a run with a saturated read buffer are also C17's ("dropping reads
+	// never changes what any cache operation returns"): linearizability, views and audits
+	if also := cr.opts.Profile.AlsoProp; also != "" && (strings.HasPrefix(rule, "lin.") || strings.HasPrefix(rule, "audit.") || strings.HasPrefix(rule, "views.") || strings.HasPrefix(rule, "bound.")) {
+		props = withProp(props, also)
+	}
 	if len(cr.viol) < 30 {
 		cr.viol = append(cr.viol, Violation{Props: props, Rule: rule, Detail: fmt.Sprintf(format, a...), Step: -1, Key: key})
 	}
